@@ -45,6 +45,8 @@ def rule_superposition(rep, repo):
     if len(fam["s"]) < 3 or len(fam["p"]) < 3:
         raise AnalysisError("anchor vanished: coulomb_potential(points, centers_s, coeffs_s, alphas_s, centers_p, ...)")
     defs = local_defs(f.node)
+    helpers = {g.name: g for g in repo.funcs.values()
+               if g.module == "coulomb" and g.cls is None and not g.is_lambda and isinstance(g.node, ast.FunctionDef)}
     # enclosing loops / guards of every accumulation statement
     found = {"s": [], "p": []}
 
@@ -64,6 +66,17 @@ def rule_superposition(rep, repo):
                     if isinstance(c, ast.Call) and norm(c.func) in ("coulomb_gaussian_s", "coulomb_gaussian_p"):
                         if isinstance(st, ast.AugAssign) and isinstance(st.op, ast.Add):
                             found[norm(c.func)[-1]].append((st, list(ctx)))
+                    # the accumulation delegated to a helper that receives the family's potential function
+                    if isinstance(c, ast.Call) and isinstance(c.func, ast.Name) and c.func.id in helpers:
+                        passed = [a_.id for a_ in list(c.args) + [k_.value for k_ in c.keywords]
+                                  if isinstance(a_, ast.Name) and a_.id in ("coulomb_gaussian_s", "coulomb_gaussian_p")]
+                        h = helpers[c.func.id]
+                        accumulates = any(isinstance(x, ast.AugAssign) and isinstance(x.op, ast.Add) for x in ast.walk(h.node))
+                        if len(passed) == 1 and accumulates:
+                            # the other arguments of the call belong to the selection context of this family
+                            others = [a_ for a_ in list(c.args) + [k_.value for k_ in c.keywords]
+                                      if not (isinstance(a_, ast.Name) and a_.id == passed[0])]
+                            found[passed[0][-1]].append((st, list(ctx) + others))
     walk(strip_docstring(f.node.body), [])
     for k, other in (("s", "p"), ("p", "s")):
         cons = "coulomb.coulomb_potential"
